@@ -280,6 +280,31 @@ func (sc *siteCollector) program() {
 				sc.add(reftype.RGlobalConst, "global-init-block", nil, []string{"type:" + kindName(xt)}, func() {
 					g.X = &hs.BlockExpr{B: hs.Blk(hs.V("zz_t"), hs.LetS("zz_t", g.X))}
 				})
+				// one part of a composite initialiser is not constant, the rest is
+				part := func(name string, wrap func(konst, call hs.Expr) hs.Expr) {
+					sc.add(reftype.RGlobalConst, "global-init-part:"+name, nil, []string{"type:" + kindName(xt)}, func() {
+						p.Funcs = append(p.Funcs, hs.Fn("zz_init", xt, hs.Blk(g.X)))
+						p.Globals = append(p.Globals, &hs.Let{Name: "zz_part", X: wrap(g.X, hs.CallN("zz_init"))})
+					})
+				}
+				part("list-last", func(k, c hs.Expr) hs.Expr { return hs.List(k, c) })
+				part("list-first", func(k, c hs.Expr) hs.Expr { return hs.List(c, k) })
+				part("object-field", func(k, c hs.Expr) hs.Expr {
+					return &hs.ObjLit{Fields: []hs.ObjField{{Name: "a", X: k}, {Name: "b", X: c}}}
+				})
+				part("equality-right", func(k, c hs.Expr) hs.Expr { return hs.Bin("==", k, c) })
+				part("equality-left", func(k, c hs.Expr) hs.Expr { return hs.Bin("==", c, k) })
+				part("nested-list", func(k, c hs.Expr) hs.Expr { return hs.List(hs.List(k), hs.List(c)) })
+				part("option", func(k, c hs.Expr) hs.Expr { return hs.Un("?", &hs.Group{X: hs.Bin("==", c, k)}) })
+				if xt.K == hs.KInt || xt.K == hs.KFloat {
+					part("sum-right", func(k, c hs.Expr) hs.Expr { return hs.Bin("+", k, c) })
+					part("sum-left", func(k, c hs.Expr) hs.Expr { return hs.Bin("+", c, k) })
+					part("product-in-sum", func(k, c hs.Expr) hs.Expr { return hs.Bin("+", k, hs.Bin("*", k, c)) })
+					part("negation", func(k, c hs.Expr) hs.Expr { return hs.Un("-", c) })
+					part("range-end", func(k, c hs.Expr) hs.Expr {
+						return &hs.RangeLit{From: hs.I(0), To: &hs.Cast{X: c, T: hs.TInt}}
+					})
+				}
 			}
 		}
 		for j := 0; j < i; j++ {
